@@ -6,7 +6,7 @@
 (*                                                                         *)
 (* Objectives over the steps (f = flops of the step, w = size of its       *)
 (* result): "flops" sum f, "write" sum w, "size" max w, "max" max f,       *)
-(* "combo" sum (f + k w), "limit" sum max(f, k w).                         *)
+(* "combo" sum (f + k w), "limit" sum max(f, k w); k = <<num, den>>.       *)
 (***************************************************************************)
 EXTENDS Network
 
@@ -16,8 +16,9 @@ Combine(obj, k, a, b, f, w) ==
       [] obj = "write" -> a + b + w
       [] obj = "size"  -> Max3(a, b, w)
       [] obj = "max"   -> Max3(a, b, f)
-      [] obj = "combo" -> a + b + f + k * w
-      [] obj = "limit" -> a + b + (IF f >= k * w THEN f ELSE k * w)
+      \* the weight is the rational k[1] / k[2]; costs are carried multiplied by k[2] (same argmin, integers only)
+      [] obj = "combo" -> a + b + k[2] * f + k[1] * w
+      [] obj = "limit" -> a + b + (IF k[2] * f >= k[1] * w THEN k[2] * f ELSE k[1] * w)
 StepCost(net, obj, k, a, b, A, B) ==
     Combine(obj, k, a, b, Flops(net, A, B, {}), Size(net, A \cup B, {}))
 Shares(net, A, B) == Legs(net, A, {}) \cap Legs(net, B, {}) # {}
